@@ -272,6 +272,45 @@ def _struct_job(job):
     raise ValueError(what)
 
 
+def run_name_damage(case) -> dict:
+    """{"kind": "name-damage", ...}: the first GetKey reply of the process carries an envelope whose domain / forest name bytes are
+    damaged (odd length, half a surrogate pair, no terminator, lone surrogates); the library may reject or accept that reply.
+    The following, well-formed reply (same names as usual, incl. non-BMP ones) must be decoded exactly as if nothing had happened."""
+    import random
+
+    r = random.Random(case["seed"])
+    raws = [b"a\x00b", b"\x3d\xd8", b"\x3d\xd8\x00", "\U0001F600".encode("utf-16-le")[:3], b"x\x00" * 3 + b"\x00", b"\x00\xdc\x00\x00", b"\xff", b"d\x00.\x00t\x00\x00\x00\x00"]
+    ov = {("domain_raw", "forest_raw")[case["seed"] % 2]: raws[case["which"] % len(raws)]}
+    sid = offline.sid_shape(3, case["seed"])
+    l0 = r.randrange(340, 470)
+    now = l0 * 1024 * B + r.randrange(1024 * B)
+    cur = gkdi.interval_of_filetime(now)
+    names = (NAMES[case["seed"] % len(NAMES)], NAMES[(case["seed"] // 7) % len(NAMES)])
+    blob = {"rk": 0, "sid": sid, "pos": list(cur), "mode": "nonce", "data": 5, "domain": "q.test", "forest": "q.test"}
+    plan = {"seed": case["seed"], "clock_ft": now, "root_keys": [[65, offline.HASHES[case["seed"] % 4], "DH"]], "caller_sids": [sid],
+            "ctx": {"kind": "stub", "legs": 2, "sig": 16}, "dc": {"domain": names[0], "forest": names[1], "byz": {"envelope_override": ov, "override_first_n": 1}},
+            "ops": [{"op": "unprotect", "fl": case["fl"][0], "net": "online", "cache": "fresh", "blob": dict(blob)},
+                    {"op": "unprotect", "fl": case["fl"][1], "net": "online", "cache": "fresh", "blob": dict(blob, salt=5)},
+                    {"op": "protect", "fl": case["fl"][1], "sid": sid, "rk": None, "net": "online", "data": 7, "cache": "fresh"}]}
+    tr = P.execute_plan(plan)
+    viol = None
+    first, second, third = tr.ops[0], tr.ops[1], tr.ops[2]
+    ok2 = second.outcome.kind == "ok" and second.outcome.value == second.plaintext
+    ok3 = third.outcome.kind == "ok"
+    if ok3:
+        try:
+            kid = cms.parse_blob(third.outcome.value)["key_identifier"]
+            ok3 = (kid["domain"], kid["forest"]) == names
+        except Exception:  # noqa: BLE001
+            ok3 = False
+    if not ok2 or not ok3:
+        bad = second if not ok2 else third
+        viol = common.violation("C11", "getkey-reply", "after-damaged-reply", drive.exc_sig(bad.outcome)[0] if bad.outcome.kind != "ok" else "names-differ", drive.exc_sig(bad.outcome)[1], "",
+                                f"after a reply whose {list(ov)[0]} was {list(ov.values())[0]!r} (outcome {first.outcome.brief()}), a well-formed reply with names {names} gave "
+                                f"{bad.outcome.brief()} {bad.outcome.exc!r}")
+    return {"viol": viol, "digest": tr.world.digest(), "key": common.key_hash(case), "fired": {"parties": 2}, "probes": {"damaged_name_then_valid": 1}, "vtime_ns": 0}
+
+
 def run_threads(case) -> dict:
     """{"kind": "threads", ...}: 2..4 caller threads encode / decode MS-GKDI structures at the same time."""
     import random
@@ -295,14 +334,15 @@ class C11(common.Check):
             "Judged: independent decode of every GetKey stub == API arguments == LibDC's decode, stub re-encoding; envelope bytes LibDC == "
             "RefDC; library decode of the reply and of nested KDF / FFC-DH parameters / DH / ECDH keys == independent decode and re-encodes "
             "identically; key identifiers in emitted blobs; 2..4 caller threads of one process encode / decode the structures at the same time "
-            "(pre-empted at PRNG-chosen line events inside dpapi_ng) and every result must equal the one computed alone. Non-trivial = every plan; distinct = distinct plan.")
+            "(pre-empted at PRNG-chosen line events inside dpapi_ng) and every result must equal the one computed alone; a reply whose name bytes are damaged (odd length, half a surrogate pair) followed "
+            "by well-formed replies in the same process. Non-trivial = every plan; distinct = distinct plan.")
     components = {"client": "real (GetKey.pack, GetKey.unpack_response, GroupKeyEnvelope.unpack, KeyIdentifier.pack, parameter/key structures)",
                   "LibDC": "real codecs in the server role (GetKey.unpack, VerificationTrailer.unpack, GroupKeyEnvelope.pack)",
                   "RefDC": "model (ref.rpce NDR64, ref.gkdi structures)", "transport / clock / entropy": "simulated"}
     assumptions = ["structure values that no party can send in this protocol (e.g. an envelope with L1 = 2^32-1) are outside the technique and not claimed",
                    "NDR referent ids are free and compared through the decoder"]
     required_fired = tuple("sd_len_mod8_%d" % i for i in (0, 4)) + ("root_key_ptr_null", "root_key_ptr_set", "reply_seed", "reply_public") + \
-        tuple("env_len_mod8_%d" % i for i in range(8)) + ("envelope_boundary_values", "p521_public_key_decoded", "nil_guid_root_key_id", "thread_structure_cases", "thread_overlap")
+        tuple("env_len_mod8_%d" % i for i in range(8)) + ("envelope_boundary_values", "p521_public_key_decoded", "nil_guid_root_key_id", "thread_structure_cases", "thread_overlap", "damaged_name_then_valid")
 
     def cases(self, tier, seed):
         rng = prng.stream(seed, "C11")
@@ -310,6 +350,8 @@ class C11(common.Check):
         from checks import threadpure
 
         out = [gen_plan(rng, i, tier) for i in range(n)]
+        for k in range(96 if tier == "quick" else 4000):
+            out.append({"kind": "name-damage", "seed": rng.getrandbits(30), "which": k, "fl": [("sync", "async")[k % 2], ("sync", "async")[(k // 2) % 2]]})
         for k in range(300 if tier == "quick" else 20000):
             out.append({"kind": "threads", "seed": rng.getrandbits(30), "n": 2 + k % 3, "policy": threadpure.policy_for(k, seams=False)})
         return out
@@ -317,6 +359,8 @@ class C11(common.Check):
     def run_case(self, case):
         if case.get("kind") == "threads":
             return run_threads(case)
+        if case.get("kind") == "name-damage":
+            return run_name_damage(case)
         tr_ref = P.execute_plan(case)
         tr_lib = P.execute_plan(dict(case, dc=dict(case["dc"], lib_codecs=True)))
         viol, probes = judge(case, tr_ref, tr_lib)
@@ -324,6 +368,8 @@ class C11(common.Check):
                 "probes": probes, "vtime_ns": tr_ref.world.stats.get("vtime_ns", 0)}
 
     def shrink(self, case):
+        if case.get("kind") == "name-damage":
+            return
         if case.get("kind") == "threads":
             pol = case["policy"]
             if pol.get("mode") != "script":
@@ -347,7 +393,7 @@ class C11(common.Check):
                 yield dict(case, dc=dict(case["dc"], **{k: "d.test"}))
 
     def sample_repr(self, case, res):
-        if case.get("kind") == "threads":
+        if case.get("kind") in ("threads", "name-damage"):
             return case
         rk = case["root_keys"][0]
         return {"root_key": rk[:3], "domain": case["dc"]["domain"], "forest": case["dc"]["forest"],
